@@ -55,6 +55,12 @@ type c15FLScenario struct {
 	BoundMs    int             `json:"bound_ms"`    // for one SpawnOutput / DespawnOutput call
 	DeadlineMs int             `json:"deadline_ms"` // for the whole session
 	Residents  []c15FLResident `json:"residents"`
+	// time-aged sessions (behaviour that depends on uptime: periodic timers): when DurationMs > 0 the stream does not end after
+	// Items items but after that much wall-clock time, with one item every PeriodMinMs..PeriodMaxMs and nothing during Quiets
+	DurationMs  int      `json:"duration_ms"`
+	PeriodMinMs int      `json:"period_min_ms"`
+	PeriodMaxMs int      `json:"period_max_ms"`
+	Quiets      [][2]int `json:"quiets"` // [start ms, length ms]
 }
 
 type c15FLIn struct {
@@ -209,8 +215,26 @@ func (s *c15FLSession) producer() {
 	if ipc < 0.25 {
 		ipc = 0.25
 	}
+	t0 := time.Now()
+	aged := s.sc.DurationMs > 0
+	end := t0.Add(time.Duration(s.sc.DurationMs) * time.Millisecond)
 	for x := int64(0); ; x++ {
-		if x >= s.sc.Items && s.cycles.Load() >= s.sc.Cycles {
+		if aged {
+			d := s.sc.PeriodMinMs
+			if s.sc.PeriodMaxMs > s.sc.PeriodMinMs {
+				d += r.Intn(s.sc.PeriodMaxMs - s.sc.PeriodMinMs + 1)
+			}
+			time.Sleep(time.Duration(d) * time.Millisecond)
+			now := int(time.Since(t0).Milliseconds())
+			for _, q := range s.sc.Quiets {
+				if now >= q[0] && now < q[0]+q[1] {
+					time.Sleep(time.Duration(q[0]+q[1]-now) * time.Millisecond)
+				}
+			}
+			if !time.Now().Before(end) || s.aborted() {
+				break
+			}
+		} else if x >= s.sc.Items && s.cycles.Load() >= s.sc.Cycles {
 			break
 		}
 		for spins := 0; ; spins++ {
@@ -218,7 +242,7 @@ func (s *c15FLSession) producer() {
 			gate := x-s.leadRecv.Load() <= w
 			// the stream advances with the attach/detach cycles so that they spread over all of it; suspended while the
 			// lead lets the producer run ahead (the buffers must fill up)
-			pace := w >= c15FLFree || s.cycles.Load() >= s.sc.Cycles || float64(x) <= float64(s.cycles.Load()+4)*ipc
+			pace := aged || w >= c15FLFree || s.cycles.Load() >= s.sc.Cycles || float64(x) <= float64(s.cycles.Load()+4)*ipc
 			if gate && pace {
 				break
 			}
@@ -468,7 +492,11 @@ func (s *c15FLSession) cycler(ci int, wg *sync.WaitGroup) {
 	for !s.finished.Load() && !s.aborted() {
 		// the cycles spread over the whole stream: do not run ahead of it (the producer, for its part, does not run ahead of the cycles)
 		for float64(s.cycles.Load())*ipc > float64(s.done.Load())+ipc*float64(s.sc.Cyclers+1) && !s.finished.Load() && !s.aborted() {
-			time.Sleep(20 * time.Microsecond)
+			if s.sc.DurationMs > 0 {
+				time.Sleep(2 * time.Millisecond)
+			} else {
+				time.Sleep(20 * time.Microsecond)
+			}
 		}
 		kind := "drain"
 		if r.Intn(100) < s.sc.StoppedPct {
@@ -656,4 +684,27 @@ func verifC15FanLong(t *testing.T) {
 	mustWriteJSON(t, out)
 }
 
-func init() { verifModes["c15fanlong"] = verifC15FanLong }
+// time-aged sessions: all scenarios of the input run concurrently (they mostly sleep)
+func verifC15FanAged(t *testing.T) {
+	var in c15FLIn
+	mustReadJSON(t, &in)
+	if in.GoMaxProcs > 0 {
+		runtime.GOMAXPROCS(in.GoMaxProcs)
+	}
+	out := c15FLOut{GoMaxProcs: runtime.GOMAXPROCS(0), Scenarios: make([]c15FLScenarioOut, len(in.Scenarios))}
+	var wg sync.WaitGroup
+	for i := range in.Scenarios {
+		wg.Add(1)
+		go func(i int) {
+			defer wg.Done()
+			out.Scenarios[i] = c15RunFanLong(in.Scenarios[i])
+		}(i)
+	}
+	wg.Wait()
+	mustWriteJSON(t, out)
+}
+
+func init() {
+	verifModes["c15fanlong"] = verifC15FanLong
+	verifModes["c15fanaged"] = verifC15FanAged
+}
